@@ -945,6 +945,11 @@ func (ex *Exec) unop(st *State, in *ssa.UnOp) Val {
 				v.Base = x.Base
 				v.Meta = guardOrigin{x.Root, path}
 			}
+			if _, isFn := v.Typ.Underlying().(*types.Signature); isFn {
+				path, _ := pathOf(x.Root, x.Path)
+				v.Base = x.Base
+				v.Meta = guardOrigin{x.Root, path}
+			}
 		}
 		// loaded references are allocated (well-typed heap)
 		if _, lit := isIntLit(v.T); v.K == KTerm && v.Typ != nil && x.K != KCellPtr && !lit {
